@@ -351,7 +351,26 @@ pub fn mutate_text(src: &str, tape: &[u32]) -> String {
 /// mutate the currency JSON
 pub fn mutate_json(src: &str, tape: &[u32]) -> String {
     let mut t = Tape::new(tape);
-    match t.pick(10) {
+    match t.pick(13) {
+        10 | 11 | 12 => {
+            // entries that redefine an existing name in terms of itself (the feed is loaded into a
+            // context that already holds the core definitions), or two feed names in terms of each other
+            let name = ["foot", "meter", "kg", "inch", "USD", "EUR", "hour"][t.pick(7)];
+            let expr = match t.pick(4) {
+                0 => name.to_string(),
+                1 => format!("3 {}", name),
+                2 => format!("{} + 1 {}", name, name),
+                _ => "loopb".to_string(),
+            };
+            let extra = format!(
+                "{{\"name\":\"{}\",\"doc\":null,\"category\":null,\"type\":\"unit\",\"expr\":\"{}\"}},{{\"name\":\"loopb\",\"doc\":null,\"category\":null,\"type\":\"unit\",\"expr\":\"{}\"}},",
+                name, expr, name
+            );
+            match src.find('[') {
+                Some(i) => format!("{}{}{}", &src[..=i], extra, &src[i + 1..]),
+                None => src.to_string(),
+            }
+        }
         0 => {
             // truncate at a structural character
             let idx: Vec<usize> = src.char_indices().filter(|(_, c)| "{}[],:\"".contains(*c)).map(|(i, _)| i).collect();
@@ -604,7 +623,7 @@ pub fn check(env: &Env, c: &Case, st: &mut Stats) -> CaseResult {
                 None => return Ok(()),
             };
             st.class(if r["ok"].as_bool() == Some(true) { "currency_accepted" } else { "currency_refused" });
-            for q in ["3 foot -> m", "1 EUR", "USD", "1 + 1"] {
+            for q in ["3 foot -> m", "1 EUR", "USD", "1 + 1", "foot", "meter", "kg", "inch", "hour", "loopb"] {
                 match call(env, st, &json!({"cmd": "eval", "line": q, "save_prev": false, "pinned": true}), &format!("`{}` after {}", q, what))? {
                     Some(v) => {
                         if q == "3 foot -> m" && v["text"].as_str() != Some("0.9144 meter (length)") {
